@@ -115,6 +115,15 @@ func InitClient() {
 	})
 }
 
+// QuietInit prepares a process that uses repository packages without initialising the client: silent logger, bare driver.
+func QuietInit() {
+	log.SetLogger(nopLogger{})
+	sql.Register(BareDriver, memdb.Driver{})
+}
+
+// SplitDDL splits a DDL script into statements.
+func SplitDDL(s string) []string { return splitDDL(s) }
+
 // UndoLogDDL is the repository's own testdata/sql/undo_log.sql.
 func UndoLogDDL() string {
 	b, err := os.ReadFile("/repo/testdata/sql/undo_log.sql")
